@@ -13,6 +13,43 @@ def lrc_precheck(ctx):
     return out
 
 
+def lxc_precheck(ctx):
+    """encoder validation: raw matches of the real compiled master regex vs the LXC encoding on concrete texts"""
+    from smartquery import SqParser
+    from sqv import lxc_checks
+    try:
+        cx = lxc_checks.Ctx(SqParser(), 6, None, timeout=60)
+        v = lxc_checks.validate(cx, n=200 if ctx["tier"] == "quick" else 800, seed=ctx["seed"])
+    except Exception as e:
+        return {"lxc_encoder_validation": "failed: %r" % (e,), "abort": "LXC encoder cannot cover this lexer: %r" % (e,)}
+    out = {"lxc_encoder_validation": v, "master_regex_rules": [r[0] for r in cx.lx.rules]}
+    if v["n_disagreements"]:
+        out["abort"] = v["disagreements"]
+    return out
+
+
+def both_prechecks(ctx):
+    a = lrc_precheck(ctx)
+    b = lxc_precheck(ctx)
+    out = dict(a)
+    out.update({k: v for k, v in b.items() if k != "abort"})
+    if a.get("abort") or b.get("abort"):
+        out["abort"] = a.get("abort") or b.get("abort")
+    return out
+
+
+def lxc_obligations(ctx, queries, prefix="lxc."):
+    quick = ctx["tier"] == "quick"
+    W = 7 if quick else 10
+    desc = {"linefeeds": "every LF / CR LF / ';' the lexer meets is one NEWLINE match and no other token contains a line feed",
+            "names": "%..% names run to the next %, plain names are maximal word-character runs; every non-digit word character starts a NAME",
+            "blank": "a space or tab inserted where the lexer stands changes no earlier raw match and is skipped (two linked texts)",
+            "crlf": "CR inserted before a line feed: earlier raw matches unchanged (a comment may absorb it), CR LF is one NEWLINE (two linked texts)"}
+    return [Obligation(f"{prefix}{q}", "z3", "lxc_checks", q, param={"W": W}, timeout=240 if quick else 1500, twin_timeout=0,
+                       bounds=f"all texts of <= {W} characters over the 31 character classes of the master regex (every code point belongs to one)",
+                       desc=desc[q]) for q in queries]
+
+
 def lrc_obligations(ctx, queries, prefix=""):
     quick = ctx["tier"] == "quick"
     obs = []
